@@ -36,6 +36,7 @@ class Unbound:
 
 
 UNBOUND = Unbound()
+SYM_KW = "**"  # key under which ``f(**m)`` with a symbolic map m travels from eval_args to bind_args
 
 
 class Frame:
@@ -172,8 +173,10 @@ class Interp:
                 return H[q]
         return None
 
-    def call_function(self, fn: Any, args: list[Any], kwargs: dict[str, Any], force_inline: bool = False) -> Any:
-        """Interpret the real Python function ``fn`` (live function object)."""
+    def call_function(self, fn: Any, args: list[Any], kwargs: dict[str, Any], force_inline: bool = False, yield_hook: Any = None) -> Any:
+        """Interpret the real Python function ``fn`` (live function object).  ``yield_hook`` drives a
+        (async) generator function directly: every ``yield`` hands its value to the hook, whose result is
+        the value of the yield expression (an exception raised by the hook is thrown in at the yield)."""
         if isinstance(fn, Closure):
             return self.call_closure(fn, args, kwargs)
         if isinstance(fn, BoundMethod):
@@ -188,6 +191,8 @@ class Interp:
         fs = source_of(fn)
         self.S.functions[f"{fs.relpath}::{fs.qualname}"] = {"sha256": fs.sha256, "nodes": fs.nodes}
         frame = Frame(fs, fn.__globals__, None, fs.qualname)
+        if yield_hook is not None:
+            frame.yield_hook = yield_hook  # type: ignore[attr-defined]
         if fn.__closure__:
             for name, cell in zip(fn.__code__.co_freevars, fn.__closure__):
                 frame.cells[name] = cell
@@ -209,6 +214,14 @@ class Interp:
     ) -> None:
         pos = [x.arg for x in a.posonlyargs + a.args]
         kwargs = dict(kwargs)
+        # ``f(**m)`` with a symbolic map m (carried under SYM_KW by eval_args): a key equal to a parameter name
+        # binds that parameter (TypeError if it is already bound), the remaining keys go to ``**kwargs``
+        sym = kwargs.pop(SYM_KW, None)
+        posonly = {x.arg for x in a.posonlyargs}
+
+        def sym_has(name: str) -> bool:
+            return sym is not None and name not in posonly and self.S.fork(sym.has(name))
+
         if len(args) > len(pos) and a.vararg is None:
             raise PyRaise(SExc(TypeError, (f"{qn}() takes {len(pos)} positional arguments but {len(args)} were given",)))
         for name, val in zip(pos, args):
@@ -218,11 +231,14 @@ class Interp:
         first_default = len(pos) - len(defaults)
         for i, name in enumerate(pos):
             if i < len(args):
-                if name in kwargs:
+                if name in kwargs or sym_has(name):
                     raise PyRaise(SExc(TypeError, (f"{qn}() got multiple values for argument {name!r}",)))
                 continue
             if name in kwargs:
                 frame.locals[name] = kwargs.pop(name)
+            elif sym_has(name):
+                frame.locals[name] = sym.val(name)
+                sym.delete(name)
             elif i >= first_default:
                 frame.locals[name] = defaults[i - first_default]
             else:
@@ -230,14 +246,24 @@ class Interp:
         for k in a.kwonlyargs:
             if k.arg in kwargs:
                 frame.locals[k.arg] = kwargs.pop(k.arg)
+            elif sym_has(k.arg):
+                frame.locals[k.arg] = sym.val(k.arg)
+                sym.delete(k.arg)
             elif k.arg in kwdefaults:
                 frame.locals[k.arg] = kwdefaults[k.arg]
             else:
                 raise PyRaise(SExc(TypeError, (f"{qn}() missing keyword-only argument {k.arg!r}",)))
         if a.kwarg is not None:
-            frame.locals[a.kwarg.arg] = kwargs
+            if sym is not None:
+                for k, v in kwargs.items():  # explicit keywords: disjoint from the map's keys (checked at the call)
+                    sym.store(k, v)
+                frame.locals[a.kwarg.arg] = sym
+            else:
+                frame.locals[a.kwarg.arg] = kwargs
         elif kwargs:
             raise PyRaise(SExc(TypeError, (f"{qn}() got an unexpected keyword argument {next(iter(kwargs))!r}",)))
+        elif sym is not None and self.S.fork(SBool(sym.size > 0)):
+            raise PyRaise(SExc(TypeError, (f"{qn}() got an unexpected keyword argument",)))
 
     def run_body(self, node: Any, frame: Frame) -> Any:
         self.depth += 1
@@ -279,6 +305,9 @@ class Interp:
                 if call is not None:
                     return self.dispatch_repo_function(call, [f] + args, kwargs)
             raise Unsupported(f"call of {f!r} has no contract")
+        if isinstance(f, V.SOpaque) and S.handlers.get(f"{f.kind}.__call__") is not None:
+            # an opaque (possibly nullable "Kind?") callable reference whose call is given by contract
+            return S.handlers[f"{f.kind}.__call__"](S, f, *args, **kwargs)
         h = self.find_handler(f)
         if h is not None:
             return h(S, *args, **kwargs)
@@ -597,7 +626,7 @@ class Interp:
         if isinstance(item.context_expr, ast.Call):
             fobj = self.eval(item.context_expr.func, frame)
             gen = getattr(fobj, "__wrapped__", None)
-            if gen is not None and inspect.isgeneratorfunction(gen) and self.find_handler(fobj) is None:
+            if gen is not None and (inspect.isgeneratorfunction(gen) or inspect.isasyncgenfunction(gen)) and self.find_handler(fobj) is None:
                 args, kwargs = self.eval_args(item.context_expr, frame)
                 self.inline_contextmanager(gen, args, kwargs, item, rest, body, frame)
                 return
@@ -1004,6 +1033,18 @@ class Interp:
             raise Unsupported("yield outside an inlined context manager")
         return hook(self.eval(e.value, frame) if e.value is not None else None)
 
+    def ex_YieldFrom(self, e: ast.YieldFrom, frame: Frame) -> Any:
+        # delegation to a concrete-length iterable: every element is yielded in order (values sent in are ignored)
+        hook = getattr(frame, "yield_hook", None)
+        if hook is None:
+            raise Unsupported("yield from outside a driven generator")
+        seq = self.models.iteration(self, self.eval(e.value, frame))
+        if not isinstance(seq, list):
+            raise Unsupported("yield from a symbolic-length iterable")
+        for x in seq:
+            hook(x)
+        return None
+
     def ex_Starred(self, e: ast.Starred, frame: Frame) -> Any:
         raise Unsupported("starred expression")
 
@@ -1057,6 +1098,9 @@ class Interp:
         return set(out)
 
     def ex_DictComp(self, e: ast.DictComp, frame: Frame) -> Any:
+        r = self.models.symbolic_dict_comprehension(self, e, frame)
+        if r is not None:
+            return r
         out: dict[Any, Any] = {}
         f = self.comp_frame(frame)
 
@@ -1075,7 +1119,14 @@ class Interp:
             v = self.eval(kw.value, frame)
             if kw.arg is None:
                 if isinstance(v, SMap):
-                    raise Unsupported("** of a symbolic map")
+                    # carried under SYM_KW, bound by bind_args of an interpreted callee (ex_Call refuses any other callee)
+                    if SYM_KW in kwargs or v.key_shape is not V.StrShape:
+                        raise Unsupported("** of a symbolic map: more than one, or keys are not str")
+                    for k in kwargs:
+                        if self.S.fork(v.has(k)):
+                            raise self.mkraise(SExc(TypeError, (f"got multiple values for keyword argument {k!r}",)))
+                    kwargs[SYM_KW] = v.snapshot()
+                    continue
                 if not isinstance(v, dict):
                     raise Unsupported(f"** of {type(v).__name__}")
                 for k in v:
@@ -1083,10 +1134,35 @@ class Interp:
                         raise self.mkraise(SExc(TypeError, (f"got multiple values for keyword argument {k!r}",)))
                 kwargs.update(v)
             else:
-                if kw.arg in kwargs:
+                if kw.arg in kwargs or (SYM_KW in kwargs and self.S.fork(kwargs[SYM_KW].has(kw.arg))):
                     raise self.mkraise(SExc(TypeError, (f"got multiple values for keyword argument {kw.arg!r}",)))
                 kwargs[kw.arg] = v
         return args, kwargs
+
+    def binds_sym_kwargs(self, f: Any) -> bool:
+        """True iff calling ``f`` goes through ``bind_args`` (the only place that understands SYM_KW)."""
+        S = self.S
+        if isinstance(f, Closure):
+            return S.handlers.get(f.qualname) is None
+        if isinstance(f, BoundMethod):
+            if f.fn is None or (isinstance(f.obj, SObj) and S.handlers.get(f"{f.obj.kind}.{f.name}") is not None):
+                return False
+            f = f.fn
+        if isinstance(f, type):
+            import dataclasses
+
+            return (
+                self.find_handler(f) is None
+                and self.models.lookup_builtin(f) is None
+                and not issubclass(f, BaseException)
+                and getattr(f, "__module__", "").startswith("vgi_rpc")
+                and f.__qualname__ in S.inline
+                and not dataclasses.is_dataclass(f)
+                and isinstance(inspect.getattr_static(f, "__init__", None), types.FunctionType)
+            )
+        u = unwrap(f)
+        q = getattr(u, "__qualname__", "")
+        return isinstance(u, types.FunctionType) and self.is_repo_fn(u) and self.find_handler(u) is None and (q in S.inline or qual_of(u) in S.inline or "*" in S.inline)
 
     def ex_Call(self, e: ast.Call, frame: Frame) -> Any:
         if self.is_logging_call(e, frame):
@@ -1107,6 +1183,8 @@ class Interp:
             raise Unsupported("super()")
         f = self.eval(e.func, frame)
         args, kwargs = self.eval_args(e, frame)
+        if SYM_KW in kwargs and not self.binds_sym_kwargs(f):
+            raise Unsupported("** of a symbolic map into a callee that is not interpreted (handler / builtin / native)")
         prev = self.S.cur_site
         try:
             return self.call_value(f, args, kwargs)
